@@ -165,6 +165,7 @@ func main() {
 		out["supervisor"] = supervisorFacts(drv)
 		out["readSide"] = readFacts(llrp)
 		out["chanCaps"] = chanCaps(llrp)
+		out["closeSites"] = gateFacts(llrp)
 		enc := json.NewEncoder(os.Stdout)
 		enc.SetIndent("", " ")
 		if err := enc.Encode(out); err != nil {
